@@ -294,6 +294,42 @@ func runC13(c *Check) {
 		})
 		c.Set("structured_programs", map[string]interface{}{"batches_done": done, "batches": nb, "size": size, "contexts": ctxNames})
 	}
+	// ---- regular expression literals: esbuild scans them itself (to find the end, to count groups and to decide
+	// whether a target supports the syntax). All bodies of <= 3 atoms x 5 flag sets, valid per V8 => accepted, output valid.
+	{
+		atoms := []string{"a", ".", "\\d", "[a-z]", "[^)]", "[(]", "\\(", "\\)", "(a)", "(?:a)", "(?=a)", "(?!a)", "(?<=a)", "(?<!a)", "(?<n>a)", "\\k<n>", "a*", "a+?", "a{1,2}", "|", "^", "$", "\\/", "[/]", "\\p{L}", "\\u{1F600}", "\\1", "(?<n2>(?<=b)c)", "(", ")", "[", "]"}
+		flagSets := []string{"", "u", "v", "gimsy", "d"}
+		var ins []string
+		maxR := 2
+		if c.Tier != "quick" {
+			maxR = 3
+		}
+		var rec func(cur string, n int)
+		rec = func(cur string, n int) {
+			if n > 0 {
+				for _, f := range flagSets {
+					ins = append(ins, "x = /"+cur+"/"+f+";")
+				}
+			}
+			if n == maxR {
+				return
+			}
+			for _, a := range atoms {
+				rec(cur+a, n+1)
+			}
+		}
+		rec("", 0)
+		const B = 256
+		nb := (uint64(len(ins)) + B - 1) / B
+		done := c.ForEach(nb, func(w int, bi uint64) {
+			lo, hi := bi*B, (bi+1)*B
+			if hi > uint64(len(ins)) {
+				hi = uint64(len(ins))
+			}
+			c13CheckBatch(c, pool.Get(w), ins[lo:hi], nil, "regexp-literals")
+		})
+		c.Set("regexp_literals", map[string]interface{}{"batches_done": done, "batches": nb, "size": len(ins), "atoms": len(atoms), "max_atoms": maxR})
+	}
 	c.Set("alphabet_size", len(alpha))
 	c.Set("max_word_length", maxLen)
 	c.Sample(map[string]string{"word": joinTokens(c13Word(12345, 3, alpha))})
